@@ -113,11 +113,23 @@ RecProgs == { RecProg(ks, ops) : ks \in { <<Key(97), Key(98), Key(99)>>, <<Key(9
                                             <<SIf(<<EBin("==", DV, ENum(I(0)))>>, << <<SAsg(EDot(M, Key(122)), ENum(I(26)))>> >>, <<>>)>>,
                                             <<SCall(ECallB("del", <<M, KV>>)), SAsg(EIdx(M, KV), ENum(I(5)))>> } }
 
+\* the same map reachable twice from one printed value (no cycle): printing, repr, iteration and has agree everywhere
+SharedProgs ==
+  LET TMM == TMap(TMap(T_num))
+      inner == EVar("inner", TM)   outer == EVar("outer", TMM)   lst == EVar("lst", TArr(TM))   deep == EVar("deep", TMap(TMM))
+  IN { Program(<<SInfer("inner", EMap(<<Key(97), Key(98)>>, <<ENum(I(1)), ENum(I(2))>>)),
+                 SInfer("outer", EMap(<<<<108>>, <<114>>>>, <<inner, inner>>)), SInfer("lst", EArr(<<inner, inner, inner>>)),
+                 SInfer("deep", EMap(<<<<120>>, <<121>>>>, <<outer, outer>>)),
+                 Pr(<<outer>>), Pr(<<lst>>), Pr(<<deep>>), Pr(<<ECallB("repr", <<outer>>), ECallB("sprint", <<lst>>)>>), Pr(<<inner, inner>>),
+                 SFor("k", "map", <<outer>>, <<Pr(<<KV, EIdx(outer, KV), ECallB("len", <<EIdx(outer, KV)>>), ECallB("has", <<EIdx(outer, KV), EStr(Key(98))>>)>>)>>),
+                 SCall(ECallB("del", <<inner, EStr(Key(97))>>)), SAsg(EDot(inner, Key(99)), ENum(I(3))), Pr(<<outer, lst>>), Pr(<<deep>>),
+                 Pr(<<EBin("==", EDot(outer, <<108>>), EDot(outer, <<114>>)), EBin("==", outer, EMap(<<<<114>>, <<108>>>>, <<inner, inner>>))>>)>>, <<>>, <<>>) }
+
 Exh == UNION {{<<len, h>> : h \in 0..(NOps ^ len - 1)} : len \in 1..ExhLen}
 Smp == {<<c \div 200000000, c % 200000000>> : c \in Sample}
 FamCases == {MkCase("FamMap", "hist", Prog(init, p[1], p[2])) : init \in 1..3, p \in Exh \cup Smp}
             \cup {MkCase("FamMap", "literal-twice", p) : p \in LitTwice}
-            \cup {MkCase("FamMap", "equality", p) : p \in EqProgs}
+            \cup {MkCase("FamMap", "equality", p) : p \in EqProgs} \cup {MkCase("FamMap", "shared", p) : p \in SharedProgs}
             \cup {MkCase("FamMap", "recursion", [p EXCEPT !.main = <<SInfer("m", p.main[1].x), SInfer("n", M)>> \o Tail(p.main)]) : p \in RecProgs}
 FamInit == InitWith(FamCases)
 =============================================================================
